@@ -1,6 +1,7 @@
 import Vorbis.File.Model
+import Vorbis.Props.C12
 namespace Vorbis.Props.C19
-open Vorbis Vorbis.File Vorbis.Block
+open Vorbis Vorbis.File Vorbis.Block Vorbis.Props.C07
 
 /-- `_ov_splice` on one channel: the first `n` samples become `d*w² + s*(1-w²)`, the rest is left alone.
     Samples and window are kept abstract (any commutative-ring-like `α` with the three operations). -/
@@ -49,5 +50,26 @@ theorem C19_lapout_idempotent (s : VF) :
     simp [h]
   · right
     simpa using h
+
+/-- **the seek inside a lapped seek is the plain seek**: after any history of reads and seeks, collecting the lapping samples at the
+    old position (which decodes ahead and consumes audio) leaves a handle on which the sample seek produces exactly the state and
+    return value it produces without the collecting — position, link, packet queue, decoder.  What a lapped seek adds is therefore
+    confined to what follows the seek: priming and the splice (`C19_splice_touches_only_lap_region`) -/
+theorem C19_inner_seek_is_the_plain_seek (ph : Phys) (s0 s : VF) (hk : s0.seekable = true) (hr : s0.ready = OPENED)
+    (h : Proofs.FileInv.Reach ph s0 s) (pos : Int) (hp : 0 ≤ pos ∧ pos ≤ sumAll s0.tab)
+    (link : Nat) (cur : Cur) (os : OStream) (po : Int) (hplan : planSeekPage ph s0.tab pos = .land link cur os po) :
+    (pcmSeek ph (rawSeek ph) pos).run ((lapPrefix ph).run s).2 = (pcmSeek ph (rawSeek ph) pos).run s := by
+  have hJ := Proofs.FileInv.reach_inv (Proofs.FileInv.jOps s0) ph s0 s h ⟨Proofs.FileInv.sinv_of_opened s0 hk hr, sameFile_refl s0⟩
+  have hJ' := Proofs.FileInv.pres_lapPrefix (Proofs.FileInv.jOps s0) ph s hJ
+  have hab : SameFile ((lapPrefix ph).run s).2 s := sameFile_trans (sameFile_symm hJ'.2) hJ.2
+  have hsk : ((lapPrefix ph).run s).2.seekable = true := hJ'.1.1
+  have etab : ((lapPrefix ph).run s).2.tab = s0.tab := hJ'.2.tab.symm
+  exact C07_seek_history_independent ph _ pos _ s hab hJ'.1.2.2 hJ.1.2.2 hsk hJ'.1.2.1 hJ.1.2.1 (by rw [etab]; exact hp) link cur os po (by rw [etab]; exact hplan)
+
+/-- non-vacuity on the five-page example file: freshly opened handle, sample seek to 200 -/
+example : (pcmSeek C07.exPhys (rawSeek C07.exPhys) 200).run ((lapPrefix C07.exPhys).run C07.exFresh).2 =
+    (pcmSeek C07.exPhys (rawSeek C07.exPhys) 200).run C07.exFresh := by
+  obtain ⟨l, c, o, po, h⟩ := C07.isLand_iff _ (show C07.SeekPlan.isLand (planSeekPage C07.exPhys C07.exFresh.tab 200) = true by decide +kernel)
+  exact C19_inner_seek_is_the_plain_seek C07.exPhys C07.exFresh C07.exFresh rfl (by decide) .refl 200 (by decide +kernel) l c o po h
 
 end Vorbis.Props.C19
